@@ -27,6 +27,26 @@ from .c11 import inspectors
 PROP = "C09"
 
 
+def _enumerates_from_root(h: Func, root: str) -> bool:
+    """h returns / yields a collection that receives the walker's own parameter, the walker being started on h's root
+    parameter (or h adds the root itself)"""
+    def adds_param(g: Func, pname: str) -> bool:
+        for x in g.own_nodes():
+            if isinstance(x, ast.Call) and isinstance(x.func, ast.Attribute) and x.func.attr in ("append", "add") and x.args and isinstance(x.args[0], ast.Name) and x.args[0].id == pname:
+                return True
+            if isinstance(x, (ast.Yield,)) and isinstance(x.value, ast.Name) and x.value.id == pname:
+                return True
+        return False
+    if adds_param(h, root):
+        return True
+    for w in h.nested.values():
+        started = any(isinstance(y, ast.Call) and isinstance(y.func, ast.Name) and y.func.id == w.name and y.args and isinstance(y.args[0], ast.Name)
+                      and y.args[0].id == root for y in h.own_nodes())
+        if started and w.params and adds_param(w, w.params[0]):
+            return True
+    return False
+
+
 def _applies_to_root(h: Func, cb: str, root: str) -> bool:
     """the traversal h calls its callback parameter `cb` on its root parameter: directly, or inside a nested walker on
     the walker's own parameter, the walker being started on the root"""
@@ -319,9 +339,36 @@ def run(ctx: Ctx) -> None:
                                 continue
                             if _applies_to_root(h_, hp[cb_i], hp[root_i]):
                                 covering = True
+        # reads on a variable that ranges over a collection: covering when the collection is produced by an enumerator of
+        # all nodes from the root on; "children only" when it ranges over an attribute of a node (its sub-calls)
+        children_only = bool(reads)
+        for g_, x in reads:
+            if x.value.id in g_.params:
+                children_only = children_only and not covering
+                continue
+            it_expr = None
+            for y in g_.own_nodes():
+                if isinstance(y, ast.comprehension) and any(isinstance(t, ast.Name) and t.id == x.value.id for t in ast.walk(y.target)):
+                    it_expr = y.iter
+                elif isinstance(y, ast.For) and any(isinstance(t, ast.Name) and t.id == x.value.id for t in ast.walk(y.target)):
+                    it_expr = y.iter
+            if it_expr is None:
+                children_only = False
+                continue
+            if isinstance(it_expr, ast.Attribute):
+                continue  # `for child in node.indirect_deps`: children of a node
+            children_only = False
+            if isinstance(it_expr, ast.Call) and any(isinstance(a, ast.Name) and a.id in root_params for a in it_expr.args):
+                fs_, _d = prog.callees(g_, it_expr, ctx._types)
+                for h_ in fs_:
+                    hp = [p_ for p_ in h_.params if p_ not in ("cls", "self")]
+                    if hp and _enumerates_from_root(h_, hp[0]):
+                        covering = True
         desc = f"{c_.name} records the store path of the node it is called on"
         if covering:
             rep.ok("C09.R10", c_.qname, desc, c_.loc())
+        elif reads and not children_only:
+            rep.info("C09.R10", c_.qname, f"{c_.name}: the nodes whose store_path is read come from a collection that is not understood (not judged)", c_.loc())
         elif reads:
             g_, x = reads[0]
             rep.bad("C09.R10", c_.qname, desc, g_.loc(x), [f"{g_.loc(x)}: `{unparse(x)}` is only read on `{x.value.id}` (a child of the visited node): the path of the root is never collected",
